@@ -6,6 +6,8 @@ driver for the framer clock model (engine `floclock`, C11)
   `runf <P> <start> <nticks> <nframes> frame*`   τ = Float  (the instance is entered at tick <start>), every number is the 16 hex digit bit pattern
   `runi <P> <start> <nticks> <nframes> frame*`   τ = Int   (exact time in units of a quantum), decimal integers
     frame := `<over idx|-> <nverbs> verb*`      (`frame Fi in Fover`)
+  `runfq` / `runiq` `<P> <Q> <nticks> …`: the framer has period Q (`framer rd be active at Q`), started at tick 0;
+    a tick in which the skedder does not run it shows its unchanged state with `.`
   after the frames: `H <nframes> frame* <ndone> <frame idx>*`   the helper framer of `aux helper if …` and its
     `done me` frames (`H 0 0` when there is none); in a main frame `S <nneeds> need*` is the suspender line
     verb  := `T <num>` (timeout) | `R <num>` (repeat) | `G <far> <nneeds> need*`   far := `next`|`me`|`<idx>`
@@ -115,10 +117,17 @@ def showObs {τ : Type} (sh : τ → String) (o : Obs τ) : String :=
   toString o.after.active ++ (if o.entered then "*" else ".") ++ ":" ++ sh o.after.elapsed ++ ":" ++
     toString o.after.recurred ++ ":" ++ sh o.now
 
+/-- per-tick view of a framer that is not run in every tick: skipped ticks repeat the last state -/
+def fillTicks {τ : Type} : List τ → List Bool → List (Obs τ) → Option (Obs τ) → List (Obs τ)
+  | now :: ns, true :: rs, o :: os, _ => o :: fillTicks ns rs os (some o)
+  | now :: ns, false :: rs, os, some p => { p with now := now, entered := false } :: fillTicks ns rs os (some p)
+  | _, _, _, _ => []
+
 def runLine {τ : Type} [Add τ] [Sub τ] [LE τ] [LT τ] [DecidableLE τ] [DecidableLT τ] [OfNat τ 0] [Lit τ]
-    (num : P τ) (sh : τ → String) (ts : List String) : Option String := do
+    (withQ : Bool) (num : P τ) (sh : τ → String) (ts : List String) : Option String := do
   let (per, r) ← num ts
-  let (start, r) ← nat r
+  let (q, r) ← (if withQ then num r else some (per, r))
+  let (start, r) ← (if withQ then some (0, r) else nat r)
   let (nticks, r) ← nat r
   let (p, r) ← many (frameSP num) r
   let (_, r) ← (match r with | "H" :: r => some ((), r) | _ => none)
@@ -132,13 +141,18 @@ def runLine {τ : Type} [Add τ] [Sub τ] [LE τ] [LT τ] [DecidableLE τ] [Deci
     -- one suspender at most, and then a helper framer with a first frame
     if !(oversOk (prog.map SFrame.toR)) || !(oversOk hfr) then none
     if suspCount prog > 1 || (suspCount prog = 1 && hfr.isEmpty) then none
+    if withQ then
+      let obs := runG (decideS prog ⟨hfr, dn⟩) {} (framerStamps per q nticks)
+      return " ".intercalate ((fillTicks (stamps per nticks) (runsAt per q nticks 0 0) obs none).map (showObs sh))
     return " ".intercalate ((runG (decideS prog ⟨hfr, dn⟩) {} (stampsFrom per start nticks)).map (showObs sh))
   | _, _ => return "ERR build"
 
 def step (_ : Unit) (line : String) : Unit × String :=
   match words line with
-  | "runf" :: ts => ((), (runLine floatP (fun x => natToHex 16 x.toBits.toNat) ts).getD "bad-op")
-  | "runi" :: ts => ((), (runLine intP (fun (x : Int) => toString x) ts).getD "bad-op")
+  | "runfq" :: ts => ((), (runLine true floatP (fun x => natToHex 16 x.toBits.toNat) ts).getD "bad-op")
+  | "runiq" :: ts => ((), (runLine true intP (fun (x : Int) => toString x) ts).getD "bad-op")
+  | "runf" :: ts => ((), (runLine false floatP (fun x => natToHex 16 x.toBits.toNat) ts).getD "bad-op")
+  | "runi" :: ts => ((), (runLine false intP (fun (x : Int) => toString x) ts).getD "bad-op")
   | _ => ((), "bad-op")
 
 end Ioflo.Drv.FloClock
